@@ -152,6 +152,12 @@ func genC02Proto(t *rapid.T) ProtoCase {
 	if len(stream) > 300000 {
 		cc.Cuts = coarsen(cc.Cuts)
 	}
+	if len(cc.Cuts) > 0 && rapid.IntRange(0, 19).Draw(t, "pause") == 0 {
+		// a pause in the middle of the stream (usually inside a frame)
+		nseg := len(Segments(stream, cc.Cuts))
+		cc.PauseAt = rapid.IntRange(1, nseg).Draw(t, "pause_at")
+		cc.PauseMS = rapid.SampledFrom([]int{5, 120, 350}).Draw(t, "pause_ms")
+	}
 	c.Conns = []ConnCase{cc}
 	return c
 }
@@ -160,6 +166,9 @@ func checkC02Proto(c ProtoCase, st *Stats) error {
 	out, err := ExecProto(c, protoBound)
 	nt := len(c.Conns[0].Cuts) > 0
 	labels := []string{"transport:" + c.Transport}
+	if c.Conns[0].PauseMS > 0 {
+		labels = append(labels, fmt.Sprintf("pause:%dms", c.Conns[0].PauseMS))
+	}
 	for _, f := range c.Conns[0].Frames {
 		if len(f) > 4096 {
 			labels = append(labels, "frame>4096")
